@@ -185,6 +185,28 @@ const L_F64B: Lang = Lang {
     lits: &["1", "2", "0.5", "3.25", "10", "0", "7.", ".5"],
 };
 
+/// text of a generated-table kind: `+ * -`, the table's own unary function and constant
+pub fn gen_kind_text(r: &mut Rng, n: u8, n_operands: usize) -> String {
+    let un = ["ga", "gb", "gc", "gd", "ge", "gf", "gg", "gh", "gi", "gj", "gk", "gl", "gm", "gn", "go", "gp", "gq", "gr", "gs",
+        "gt", "gu", "gv", "gw", "gx"][(n % 24) as usize];
+    let kc = ["KA", "KB", "KC", "KD", "KE", "KF", "KG", "KH", "KI", "KJ", "KK", "KL", "KM", "KN", "KO", "KP", "KQ", "KR", "KS",
+        "KT", "KU", "KV", "KW", "KX"][(n % 24) as usize];
+    let mut s = String::new();
+    for i in 0..n_operands.max(1) {
+        if i > 0 {
+            s.push_str(["+", "*", "-"][r.below(3)]);
+        }
+        match r.below(5) {
+            0 => s.push_str(&format!("{un}(x)")),
+            1 => s.push_str(kc),
+            2 => s.push_str(["x", "y", "z"][r.below(3)]),
+            3 => s.push_str(&format!("{un}({})", ["1", "2.5", "y"][r.below(3)])),
+            _ => s.push_str(["1", "2", "0.5", "3"][r.below(4)]),
+        }
+    }
+    s
+}
+
 fn lang(kind: Kind) -> &'static Lang {
     match kind {
         Kind::F64 | Kind::F32 => &L_F,
@@ -193,6 +215,7 @@ fn lang(kind: Kind) -> &'static Lang {
         Kind::Sim | Kind::Sim2 => &L_SIM,
         Kind::Sim3 => &L_SIM3,
         Kind::F64b => &L_F64B,
+        Kind::Gen(_) => &L_F64B, // not used: gen_text special-cases Gen
     }
 }
 
@@ -285,6 +308,9 @@ fn gen_into(r: &mut Rng, l: &Lang, n: usize, depth: usize, out: &mut String) {
 /// around a chain. Nesting depth = n_operands - 1; cheap to evaluate, convert and differentiate,
 /// but every recursive walk over it (deep form, partial, unparse, flatten) goes `depth` levels down.
 pub fn gen_tower(r: &mut Rng, kind: Kind, n_operands: usize) -> String {
+    if let Kind::Gen(n) = kind {
+        return gen_kind_text(r, n, n_operands.min(12));
+    }
     let l = lang(kind);
     let mut s = String::new();
     atom(r, l, &mut s);
@@ -311,6 +337,9 @@ pub fn gen_tower(r: &mut Rng, kind: Kind, n_operands: usize) -> String {
 }
 
 pub fn gen_text(r: &mut Rng, kind: Kind, n_operands: usize) -> String {
+    if let Kind::Gen(n) = kind {
+        return gen_kind_text(r, n, n_operands.min(12));
+    }
     let mut s = String::new();
     let l = if matches!(kind, Kind::Val | Kind::Val64) && n_operands <= 12 && r.chance(1, 4) {
         &L_VAL_ARR
@@ -359,6 +388,9 @@ pub fn damage(r: &mut Rng, text: &str) -> String {
 // ---------------------------------------------------------------------------------------------
 
 fn pick_kind(r: &mut Rng) -> Kind {
+    if r.chance(1, 12) {
+        return Kind::Gen(r.below(24) as u8);
+    }
     match r.below(100) {
         0..=21 => Kind::F64,
         22..=29 => Kind::F64b,
@@ -438,7 +470,10 @@ pub fn gen_workload(seed: u64, cfg: GenCfg) -> Workload {
             let small = shared[j].n_operands <= 40 || (shared[j].tower && r.chance(1, 4));
             let roll = r.below(w_eval + w_parse + w_other);
             let op = if roll < w_eval && r.chance(1, 6) {
-                Op::EvalBurst { j, point: r.below(24) as u32, mode: r.below(4) as u8, k: r.range(2, 4) as u8 }
+                // mostly a few evaluations; now and then a hot expression: enough evaluations of one
+                // shared instance that anything counting them crosses 255/256 within the run
+                let k = if shared[j].n_operands <= 16 && r.chance(1, 5) { [90u8, 130, 200, 255][r.below(4)] } else { r.range(2, 4) as u8 };
+                Op::EvalBurst { j, point: r.below(24) as u32, mode: r.below(4) as u8, k }
             } else if roll < w_eval {
                 Op::Eval {
                     j,
@@ -600,6 +635,25 @@ const FIRST_TEXTS: [(Kind, &[&str]); 9] = [
 /// anything that exists once per process or once per operator table is contended.
 pub fn gen_firstuse_workload(seed: u64) -> Workload {
     let mut r = Rng::new(seed);
+    if r.chance(1, 4) {
+        // many operator tables at once: every thread parses small texts with 18-24 different
+        // generated tables (in rotated orders), so that anything with a fixed number of slots per
+        // operator table is filled, evicted and refilled while other threads look things up
+        let n_threads = r.range(2, 4);
+        let n_tables = r.range(18, 24);
+        let mut threads = Vec::new();
+        for t in 0..n_threads {
+            let mut ops = Vec::new();
+            let start = r.below(24);
+            for i in 0..n_tables {
+                let n = ((start + i * (1 + t % 2 * 6)) % 24) as u8;
+                let text = gen_kind_text(&mut r, n, 3);
+                ops.push(Op::Parse { kind: Kind::Gen(n), form: if i % 3 == 0 { Form::Deep } else { Form::Flat }, text, compile: true, damaged: false });
+            }
+            threads.push(ops);
+        }
+        return Workload { shared: Vec::new(), threads, faults: Vec::new(), main_keeps_handles: true };
+    }
     let n_threads = r.range(2, 4);
     let rot = r.below(9);
     let per_thread_rot = r.chance(3, 10);
